@@ -11,7 +11,7 @@ import (
 func init() {
 	register(&Check{
 		ID: "C02", Level: "exploration", QuickSecs: 150, ThoroughSecs: 1500,
-		Rule:        "skeletons over {'a',[ab],.,\"é\",&{},!{},#{}} x {?,*,+,&,!} x seq/choice up to N nodes (quick 4, thorough 5) wrapped in a rule-level action; every placement of <=2 labels on sub-expressions (distinct names, and the same name twice when the two bindings are in different scopes); a scope family (x bound in the rule sequence and again inside each scope-opening construct - & ! ? * + choice alternative, label, recovery - in a sub-sequence that continues after the inner binding; 243 grammars, inputs over {a,b} up to 4); every block receives the labels of its scope; every true/false script of the code predicates, each also with the predicates returning an error next to their boolean; inputs over {a,b,\\n,é} up to L=3; the complete ordered log of block invocations (id, kind, line:col:offset, text, label values), also on abandoned alternatives, and the parse result are compared with the reference interpreter; with Memoize (bodies up to 3 nodes in the quick tier) each observed invocation must be one the reference also makes; plus a family generated with -optimize-grammar in which a labelled leaf rule is inlined next to equally named labels. Non-trivial = at least two block invocations of which one on a later-abandoned path or after a backtrack.",
+		Rule:        "skeletons over {'a',[ab],.,\"é\",&{},!{},#{}} x {?,*,+,&,!} x seq/choice up to N nodes (quick 4, thorough 5) wrapped in a rule-level action; left-recursive rules generated with -support-left-recursion (12 grammars: text, pos and the seed as label value in every growth iteration); every placement of <=2 labels on sub-expressions (distinct names, and the same name twice when the two bindings are in different scopes); a scope family (x bound in the rule sequence and again inside each scope-opening construct - & ! ? * + choice alternative, label, recovery - in a sub-sequence that continues after the inner binding; 243 grammars, inputs over {a,b} up to 4); every block receives the labels of its scope; every true/false script of the code predicates, each also with the predicates returning an error next to their boolean; inputs over {a,b,\\n,é} up to L=3; the complete ordered log of block invocations (id, kind, line:col:offset, text, label values), also on abandoned alternatives, and the parse result are compared with the reference interpreter; with Memoize (bodies up to 3 nodes in the quick tier) each observed invocation must be one the reference also makes; plus a family generated with -optimize-grammar in which a labelled leaf rule is inlined next to equally named labels. Non-trivial = at least two block invocations of which one on a later-abandoned path or after a backtrack.",
 		Assumptions: []string{"E1 loader", "which labels a block receives is C04's concern; here the values bound to them are checked"},
 		Run:         runC02,
 	})
@@ -148,6 +148,35 @@ func runC02(c *ShardCtx) {
 			continue
 		}
 		optGrammarVsReference(c, g, []core.Gen{{OptGrammar: true}, {OptGrammar: true, Optimize: true}}, peg.Inputs([]string{"a", "b", "c"}, 3), "-optimize-grammar")
+	}
+	// left-recursive rules (-support-left-recursion): the action of a grown alternative sees the
+	// text from the start of the leader, that start as pos, and the seed as the value of the
+	// recursive label - in every growth iteration
+	{
+		lit := peg.Lit
+		var lrs []*peg.Grammar
+		for _, t := range []func() *peg.Expr{func() *peg.Expr { return lit("a") }, func() *peg.Expr { return peg.Cls(false, false, "a", "b") }, func() *peg.Expr { return lit("é") }} {
+			for _, sep := range []func() *peg.Expr{func() *peg.Expr { return lit("b") }, func() *peg.Expr { return lit("\n") }} {
+				lrs = append(lrs,
+					&peg.Grammar{Rules: []*peg.Rule{{Name: "S", Expr: peg.Action(0, peg.Seq(peg.Opt(lit("b")), peg.Label("v", peg.Ref("E")), peg.AndCode(0), peg.Star(peg.Any())))},
+						{Name: "E", Expr: peg.Choice(peg.Action(0, peg.Seq(peg.Label("l", peg.Ref("E")), sep(), peg.Label("r", peg.Ref("T")), peg.AndCode(0))), peg.Action(0, peg.Label("x", peg.Ref("T"))))},
+						{Name: "T", Expr: peg.Action(0, t())}}},
+					&peg.Grammar{Rules: []*peg.Rule{{Name: "S", Expr: peg.Action(0, peg.Seq(peg.Label("v", peg.Star(peg.Seq(peg.Ref("E"), peg.Opt(lit(" "))))), peg.Not(peg.Any())))},
+						{Name: "E", Expr: peg.Choice(peg.Action(0, peg.Seq(peg.Label("l", peg.Ref("E")), peg.Label("o", sep()), peg.Label("r", t()))), peg.Action(0, t()))}}},
+				)
+			}
+		}
+		for _, g := range lrs {
+			idx++
+			if !c.Mine(idx) {
+				continue
+			}
+			peg.Renumber(g, 1)
+			peg.AssignArgs(g)
+			fam := &family{gens: []core.Gen{{LeftRec: true}, {LeftRec: true, Optimize: true}}, inputs: peg.Inputs([]string{"a", "b", "\n", "é", " "}, 4), opts: []rtapi.RunOpts{{MaxExpr: 3000, Filename: "f"}},
+				scripts: predScripts(g, func(e *peg.Expr) rtapi.Block { return rtapi.Block{} }), nontrivial: nontriv, confEvery: 3, confQuota: 1, cmp: core.CmpOpts{SkipNoMatch: true}}
+			runGrammar(c, g, fam)
+		}
 	}
 	// scope family: the label x bound in the rule's sequence and AGAIN inside every scope-opening
 	// construct ( & ! ? * + choice alternative, label, recovery ) in a sub-sequence that goes on
